@@ -1,5 +1,486 @@
 package main
 
-func cmdCheck(args []string)    {}
-func cmdReplay(args []string)   {}
+import (
+	"encoding/json"
+	"flag"
+	"fmt"
+	"os"
+	"path/filepath"
+	"runtime"
+	"sort"
+	"strconv"
+	"strings"
+	"time"
+)
+
+type runSpec struct {
+	dir      string
+	entry    string
+	quick    []int
+	thorough []int
+	mapRev   bool // additionally run with reversed map iteration order
+}
+
+type propSpec struct {
+	id      string
+	runs    []runSpec
+	covers  []string // cover points that must be reached (vacuity guard)
+	bounds  string   // quick bounds
+	boundsT string   // thorough bounds
+	outside string   // what lies outside the claim
+	assume  []string
+	stubs   []string
+	race    bool // violations are replayed under the race detector
+}
+
+type knownFinding struct {
+	Property string `json:"property"`
+	Label    string `json:"label"`
+	Site     string `json:"site"`
+	Status   string `json:"status"` // known | fixed
+	Commit   string `json:"commit,omitempty"`
+	What     string `json:"what"`
+}
+
+type replayFile struct {
+	Property string    `json:"property"`
+	Dir      string    `json:"dir"`
+	Label    string    `json:"label"`
+	Site     string    `json:"site"`
+	Entry    string    `json:"entry"`
+	Arg      int       `json:"arg"`
+	Values   []NDValue `json:"values"`
+	Race     bool      `json:"race,omitempty"`
+	Shown    string    `json:"shown"`
+}
+
+// loadKnown parses /verif/known_findings.txt:
+//
+//	known: property=<id> | <assertion label> | <site> | <what fails>
+//	fixed: property=<id> <commit> <what failed>
+//
+// Only "known:" lines suppress anything, and only the exact (property, label,
+// site) they name; "fixed:" lines are a record.
+func loadKnown(root string) []knownFinding {
+	b, err := os.ReadFile(filepath.Join(root, "known_findings.txt"))
+	if err != nil {
+		return nil
+	}
+	var out []knownFinding
+	for _, line := range strings.Split(string(b), "\n") {
+		line = strings.TrimSpace(line)
+		if !strings.HasPrefix(line, "known:") {
+			continue
+		}
+		parts := strings.Split(strings.TrimPrefix(line, "known:"), " | ")
+		if len(parts) != 4 || !strings.HasPrefix(strings.TrimSpace(parts[0]), "property=") {
+			fmt.Println("INCONCLUSIVE: malformed line in known_findings.txt:", line)
+			os.Exit(2)
+		}
+		out = append(out, knownFinding{Property: strings.TrimPrefix(strings.TrimSpace(parts[0]), "property="), Label: strings.TrimSpace(parts[1]),
+			Site: strings.TrimSpace(parts[2]), What: strings.TrimSpace(parts[3]), Status: "known"})
+	}
+	return out
+}
+
+func cmdCheck(args []string) {
+	fs := flag.NewFlagSet("check", flag.ExitOnError)
+	prop := fs.String("prop", "", "property id")
+	tier := fs.String("tier", "", "quick|thorough")
+	repo := fs.String("repo", "/repo", "repository")
+	workers := fs.Int("j", runtime.NumCPU(), "workers")
+	replay := fs.String("replay", "", "replay file")
+	fs.Parse(args)
+	if *replay != "" {
+		cmdReplay([]string{"-file", *replay, "-repo", *repo})
+		return
+	}
+	if *tier == "" {
+		*tier = os.Getenv("VERIF_TIER")
+	}
+	if *tier != "thorough" {
+		*tier = "quick"
+	}
+	seed := 0
+	if s := os.Getenv("VERIF_SEED"); s != "" {
+		seed, _ = strconv.Atoi(s)
+	}
+	var spec *propSpec
+	for i := range propSpecs {
+		if propSpecs[i].id == *prop {
+			spec = &propSpecs[i]
+		}
+	}
+	if spec == nil {
+		fmt.Println("unknown property", *prop)
+		os.Exit(2)
+	}
+	root := verifRoot()
+	t0 := time.Now()
+	dirSet := map[string]bool{}
+	for _, r := range spec.runs {
+		dirSet[r.dir] = true
+	}
+	var dirs []string
+	for d := range dirSet {
+		dirs = append(dirs, d)
+	}
+	sort.Strings(dirs)
+	l := loadRepo(*repo, dirs)
+	ex := newExplorer(l, *workers)
+	if *tier == "quick" {
+		ex.maxLeaves, ex.leafSample = 12, 41+seed%7
+	} else {
+		ex.maxLeaves, ex.leafSample = 40, 97+seed%11
+	}
+
+	var all []*RunStats
+	var inconclusive []string
+	type vref struct {
+		v   *Violation
+		dir string
+	}
+	var vios []vref
+	leavesByDir := map[string][]Leaf{}
+	cover := map[string]int{}
+	fnSteps := map[string]int{}
+	fnBranches := map[string]int{}
+	var scripts, answers []string
+	tot := RunStats{}
+	for _, r := range spec.runs {
+		argsList := r.quick
+		if *tier == "thorough" && len(r.thorough) > 0 {
+			argsList = r.thorough
+		}
+		revs := []bool{false}
+		if r.mapRev {
+			revs = append(revs, true)
+		}
+		for _, rev := range revs {
+			for _, a := range argsList {
+				ex.mapReverse = rev
+				st := ex.run(l.pkgs[r.dir], r.entry, a)
+				all = append(all, st)
+				tot.Paths += st.Paths
+				tot.Decisions += st.Decisions
+				tot.Steps += st.Steps
+				tot.Forks += st.Forks
+				tot.Asserts += st.Asserts
+				tot.FilterHits += st.FilterHits
+				tot.Solver.Queries += st.Solver.Queries
+				tot.Solver.Sat += st.Solver.Sat
+				tot.Solver.Unsat += st.Solver.Unsat
+				tot.Solver.Unknown += st.Solver.Unknown
+				tot.Solver.Errors += st.Solver.Errors
+				tot.Solver.Time += st.Solver.Time
+				for k, n := range st.Cover {
+					cover[k] += n
+				}
+				for k, n := range st.FnSteps {
+					fnSteps[k] += n
+				}
+				for k, n := range st.FnBranches {
+					fnBranches[k] += n
+				}
+				for _, v := range st.Violations {
+					vios = append(vios, vref{v, r.dir})
+				}
+				leavesByDir[r.dir] = append(leavesByDir[r.dir], st.Leaves...)
+				if len(scripts) < 60 {
+					scripts = append(scripts, st.Scripts...)
+					answers = append(answers, st.ScriptAnswer...)
+				}
+				for msg, n := range st.EngineErrs {
+					inconclusive = append(inconclusive, fmt.Sprintf("%s(%d): engine error x%d: %s", st.Entry, st.Arg, n, msg))
+				}
+				for msg, n := range st.Unknowns {
+					inconclusive = append(inconclusive, fmt.Sprintf("%s(%d): solver unknown x%d: %s", st.Entry, st.Arg, n, msg))
+				}
+				if st.Truncated {
+					inconclusive = append(inconclusive, fmt.Sprintf("%s(%d): path budget exhausted", st.Entry, st.Arg))
+				}
+				if st.Solver.Errors > 0 {
+					inconclusive = append(inconclusive, fmt.Sprintf("%s(%d): %d solver error lines", st.Entry, st.Arg, st.Solver.Errors))
+				}
+			}
+		}
+	}
+	for _, c := range spec.covers {
+		if cover[c] == 0 {
+			inconclusive = append(inconclusive, "vacuity guard: cover point never reached: "+c)
+		}
+	}
+
+	// native validation of sampled witness paths (translation validation of the encoder)
+	validated := 0
+	for _, d := range dirs {
+		lv := leavesByDir[d]
+		if len(lv) == 0 {
+			continue
+		}
+		if len(lv) > 400 {
+			lv = lv[:400]
+		}
+		bad := validateLeaves(l, *repo, d, lv)
+		validated += len(lv) - len(bad)
+		for _, b := range bad {
+			inconclusive = append(inconclusive, "native validation mismatch: "+b)
+		}
+	}
+
+	// cross-solver agreement on sampled assertion queries
+	cross := 0
+	crossN := 6
+	if *tier == "thorough" {
+		crossN = 40
+	}
+	for i := 0; i < len(scripts) && i < crossN; i++ {
+		for _, bin := range []string{"z3-new", "cvc5"} {
+			got := oneShot(bin, scripts[i])
+			if got != answers[i] {
+				inconclusive = append(inconclusive, fmt.Sprintf("cross-solver disagreement: z3 said %s, %s said %s", answers[i], bin, got))
+			}
+			cross++
+		}
+	}
+	if len(scripts) > 0 {
+		os.MkdirAll(filepath.Join(root, "evidence"), 0o755)
+		os.WriteFile(filepath.Join(root, "evidence", spec.id+".smt2"), []byte("; sample of an assertion query discharged by this run (expected: "+answers[0]+")\n"+scripts[0]), 0o644)
+	}
+
+	// native replay of every violation; only reproduced ones are reported
+	known := loadKnown(root)
+	os.MkdirAll(filepath.Join(root, "replays"), 0o755)
+	newViolations := 0
+	knownHits := map[int]bool{}
+	byDir := map[string][]*Violation{}
+	for _, vr := range vios {
+		byDir[vr.dir] = append(byDir[vr.dir], vr.v)
+	}
+	nrep := 0
+	var vioSamples []any
+	for _, d := range dirs {
+		vs := byDir[d]
+		if len(vs) == 0 {
+			continue
+		}
+		var plain, threaded []*Violation
+		for _, v := range vs {
+			if v.Threads || spec.race {
+				threaded = append(threaded, v)
+			} else {
+				plain = append(plain, v)
+			}
+		}
+		groups := []struct {
+			vs   []*Violation
+			race bool
+		}{{plain, false}, {threaded, true}}
+		for _, g := range groups {
+			if len(g.vs) == 0 {
+				continue
+			}
+			var rs []bool
+			if g.race {
+				rs = replayRace(l, *repo, d, g.vs)
+			} else {
+				nr := replayNative(l, *repo, d, violationCases(g.vs), false)
+				if nr.Err != "" {
+					inconclusive = append(inconclusive, "native replay failed: "+nr.Err+" "+tail(nr.Output, 1500))
+					continue
+				}
+				for i, v := range g.vs {
+					rs = append(rs, reproduced(&nr.Results[i], v.Label))
+				}
+			}
+			for i, v := range g.vs {
+				if !rs[i] {
+					inconclusive = append(inconclusive, fmt.Sprintf("solver model for %q @ %s did not reproduce natively (%s(%d) %s)", v.Label, v.Site, v.Entry, v.Arg, showValues(v.Values)))
+					continue
+				}
+				matched := false
+				for k, kf := range known {
+					if kf.Property == spec.id && kf.Status == "known" && kf.Label == v.Label && kf.Site == v.Site {
+						knownHits[k] = true
+						matched = true
+					}
+				}
+				if matched {
+					continue
+				}
+				nrep++
+				rf := replayFile{Property: spec.id, Dir: d, Label: v.Label, Site: v.Site, Entry: v.Entry, Arg: v.Arg, Values: v.Values, Race: g.race, Shown: showValues(v.Values)}
+				path := filepath.Join(root, "replays", fmt.Sprintf("%s-%d.json", spec.id, nrep))
+				os.WriteFile(path, mustJSON(rf), 0o644)
+				fmt.Printf("VIOLATION property=%s replay=%s\n", spec.id, path)
+				fmt.Printf("  assertion %q at %s fails for %s(%d) with %s (x%d paths)\n", v.Label, v.Site, v.Entry, v.Arg, showValues(v.Values), v.Count)
+				newViolations++
+				vioSamples = append(vioSamples, map[string]any{"label": v.Label, "site": v.Site, "entry": v.Entry, "arg": v.Arg, "input": showValues(v.Values)})
+			}
+		}
+	}
+	for k, kf := range known {
+		if kf.Property == spec.id && kf.Status == "known" {
+			if knownHits[k] {
+				fmt.Printf("KNOWN-FINDING: property=%s %s [%s @ %s]\n", spec.id, kf.What, kf.Label, kf.Site)
+			} else {
+				fmt.Printf("note: known finding not observed in this run: %s [%s @ %s]\n", kf.What, kf.Label, kf.Site)
+			}
+		}
+	}
+
+	// evidence
+	var samples []any
+	for _, d := range dirs {
+		for i, lf := range leavesByDir[d] {
+			if i >= 4 {
+				break
+			}
+			samples = append(samples, map[string]any{"harness": fmt.Sprintf("%s(%d)", lf.Entry, lf.Arg), "witness_input": showValues(lf.Values), "observed": lf.Obs, "cover": lf.Covers, "path_condition_conjuncts": lf.PCLen})
+		}
+	}
+	samples = append(samples, vioSamples...)
+	if len(samples) == 0 {
+		samples = append(samples, map[string]any{"note": "no completed path sampled"})
+	}
+	var runsOut []any
+	for _, st := range all {
+		runsOut = append(runsOut, map[string]any{"harness": fmt.Sprintf("%s(%d)", st.Entry, st.Arg), "paths": st.Paths, "symbolic_decisions": st.Decisions,
+			"ssa_instructions": st.Steps, "solver_queries": st.Solver.Queries, "violations": len(st.Violations), "wall_s": round2(st.Wall.Seconds())})
+	}
+	isRepoFn := func(k string) bool {
+		return strings.Contains(k, repoPath) && !strings.Contains(k, "ZZ") && !strings.Contains(k, ".zz") && !strings.Contains(k, "zzverif")
+	}
+	var encoded []string
+	for _, e := range topN(fnSteps, 60, isRepoFn) {
+		name := e[:strings.LastIndexByte(e, ':')]
+		encoded = append(encoded, fmt.Sprintf("%s (instructions executed %s, symbolic branches %d)", strings.ReplaceAll(name, repoPath, "mux"), e[strings.LastIndexByte(e, ':')+1:], fnBranches[name]))
+	}
+	bounds := spec.bounds
+	if *tier == "thorough" && spec.boundsT != "" {
+		bounds = spec.boundsT
+	}
+	wall := time.Since(t0).Seconds()
+	ev := map[string]any{
+		"property_id": spec.id, "tier": *tier, "seed": seed, "level": "model_checking", "wall_s": round2(wall),
+		"violations": newViolations,
+		"assumptions": append(append([]string{}, spec.assume...),
+			"go/ssa (x/tools v0.29.0) translates /repo's source faithfully; the executor's SSA semantics (validated on this run by native replay of sampled witness paths)",
+			"z3 4.8.12 answers are correct (a sample of assertion queries is re-discharged with z3 5.1.0 and cvc5 1.0.3)",
+			"stubs: "+strings.Join(spec.stubs, "; ")),
+		"coverage": map[string]any{
+			"states":                        max1(tot.Paths),
+			"transitions":                   max1(tot.Decisions),
+			"traces_validated_against_impl": validated,
+			"samples":                       samples,
+			"exhaustive":                    len(inconclusive) == 0,
+			"explanation": "bounded symbolic execution of the go/ssa form of /repo (rebuilt from the working tree on this run): states = completed symbolic paths (each a class of inputs described by its path condition), transitions = symbolic branch decisions; every assertion and every feasibility question not settled by the syntactic byte-domain filter was a z3 query; exhaustive=true means every path inside the stated bounds was explored to its end, no solver answer was unknown and all vacuity guards were reached",
+			"bounds":                  bounds,
+			"outside_the_claim":       spec.outside,
+			"functions_encoded":       encoded,
+			"runs":                    runsOut,
+			"ssa_instructions":        tot.Steps,
+			"assertions_reached":      tot.Asserts,
+			"solver_queries":          map[string]any{"total": tot.Solver.Queries, "sat": tot.Solver.Sat, "unsat": tot.Solver.Unsat, "unknown": tot.Solver.Unknown, "error_lines": tot.Solver.Errors, "decided_by_domain_filter": tot.FilterHits},
+			"solver_time_s":           round2(tot.Solver.Time.Seconds()),
+			"solver":                  "z3 4.8.12 (persistent process per worker, push/pop)",
+			"cross_solver_rechecks":   cross,
+			"cover_points":            cover,
+			"required_cover_points":   spec.covers,
+			"violations_replayed":     len(vios),
+			"inconclusive":            inconclusive,
+			"ssa_load_build_s":        round2(l.loadDur.Seconds()),
+			"workers":                 *workers,
+		},
+	}
+	os.MkdirAll(filepath.Join(root, "evidence"), 0o755)
+	os.WriteFile(filepath.Join(root, "evidence", spec.id+".json"), mustJSON(ev), 0o644)
+
+	fmt.Printf("%s %s: %d runs, %d paths, %d decisions, %d assertions reached, %d solver queries (%.1fs), %d witness paths validated natively, %.1fs wall\n",
+		spec.id, *tier, len(all), tot.Paths, tot.Decisions, tot.Asserts, tot.Solver.Queries, tot.Solver.Time.Seconds(), validated, wall)
+	if newViolations > 0 {
+		os.Exit(1)
+	}
+	if len(inconclusive) > 0 {
+		for i, s := range inconclusive {
+			if i >= 12 {
+				fmt.Printf("INCONCLUSIVE ... and %d more\n", len(inconclusive)-i)
+				break
+			}
+			fmt.Println("INCONCLUSIVE", s)
+		}
+		os.Exit(2)
+	}
+	fmt.Printf("OK property=%s held on every path explored within: %s\n", spec.id, bounds)
+}
+
+func round2(f float64) float64 { return float64(int(f*100+0.5)) / 100 }
+func max1(n int) int {
+	if n < 1 {
+		return 1
+	}
+	return n
+}
+
+// replayRace replays threaded violations natively under the race detector.
+func replayRace(l *loaded, repoDir, hdir string, vs []*Violation) []bool {
+	out := make([]bool, len(vs))
+	for i, v := range vs {
+		// each case in its own process: a detected race or a fatal "concurrent map" error ends it
+		var cases []replayCase
+		for k := 0; k < 30; k++ {
+			cases = append(cases, replayCase{Entry: v.Entry, Arg: v.Arg, Values: v.Values})
+		}
+		nr := replayNative(l, repoDir, hdir, cases, true)
+		switch {
+		case strings.Contains(nr.Output, "DATA RACE") || strings.Contains(nr.Output, "fatal error: concurrent map"):
+			out[i] = true
+		case nr.Err == "":
+			for k := range nr.Results {
+				if reproduced(&nr.Results[k], v.Label) {
+					out[i] = true
+				}
+			}
+		}
+	}
+	return out
+}
+
+func cmdReplay(args []string) {
+	fs := flag.NewFlagSet("replay", flag.ExitOnError)
+	file := fs.String("file", "", "replay file")
+	repo := fs.String("repo", "/repo", "repository")
+	fs.Parse(args)
+	b, err := os.ReadFile(*file)
+	if err != nil {
+		fmt.Println(err)
+		os.Exit(2)
+	}
+	var rf replayFile
+	if err := json.Unmarshal(b, &rf); err != nil {
+		fmt.Println(err)
+		os.Exit(2)
+	}
+	l := loadRepo(*repo, []string{rf.Dir})
+	v := &Violation{Label: rf.Label, Site: rf.Site, Entry: rf.Entry, Arg: rf.Arg, Values: rf.Values}
+	ok := false
+	if rf.Race {
+		ok = replayRace(l, *repo, rf.Dir, []*Violation{v})[0]
+	} else {
+		nr := replayNative(l, *repo, rf.Dir, violationCases([]*Violation{v}), false)
+		if nr.Err != "" {
+			fmt.Println("native run failed:", nr.Err, tail(nr.Output, 2000))
+			os.Exit(2)
+		}
+		ok = reproduced(&nr.Results[0], rf.Label)
+		fmt.Printf("native result: failed=%v panic=%q obs=%v\n", nr.Results[0].Failed, nr.Results[0].Panic, nr.Results[0].Obs)
+	}
+	if ok {
+		fmt.Printf("REPRODUCED property=%s %q at %s with %s\n", rf.Property, rf.Label, rf.Site, rf.Shown)
+		fmt.Printf("VIOLATION property=%s replay=%s\n", rf.Property, *file)
+		os.Exit(1)
+	}
+	fmt.Println("not reproduced on this tree")
+}
+
 func cmdSelfTest(args []string) {}
